@@ -3,6 +3,7 @@ import SJ.Props.Typed
 import SJ.Props.TypedFaultEq
 import SJ.Props.StreamTyped
 import SJ.Props.C13Raw
+import SJ.Props.C13Kind
 #print axioms SJ.Props.C13.c13_read
 #print axioms SJ.Props.C13.c13_read_error_class
 #print axioms SJ.Props.Typed.c13_typed_fault
@@ -25,3 +26,8 @@ import SJ.Props.C13Raw
 #print axioms SJ.Props.C13.c13_writer_all
 #print axioms SJ.Props.C13.c13_writer_all_vec
 #print axioms SJ.Props.C13.c13_every_write_checked
+#print axioms SJ.Props.C13.c13_io_error_kind_link
+#print axioms SJ.Props.C13.c13_kind_preserved
+#print axioms SJ.Props.C13.c13_kind_only_from_reader
+#print axioms SJ.Props.C13.c13_typed_kind_preserved
+#print axioms SJ.Props.C13.c13_item_kind
